@@ -885,6 +885,11 @@ func (e *Env) call(x *ast.CallExpr, hint types.Type) Term {
 		m := w.reg.elemMem(types.Typ[types.Byte])
 		w.reg.declareUFraw("bytesval", fmt.Sprintf("(Array %s (_ BitVec 8)) %s %s", bv64, bv64, bv64), "Int")
 		return Term{fmt.Sprintf("(ite (= (s-len %s) #x0000000000000000) 0 (uf_bytesval %s (s-off %s) (s-len %s)))", b.S, innerOf(e.st(), m, e.memTerm(m), "(s-arr "+b.S+")"), b.S, b.S), "Int", mathIntType}
+	case "cborTagWalk": // RFC 8949 walk over the tag heads of the item in a byte slice: 0 not a map, 1 a map under its tags, 2 an ill-formed (reserved) tag head
+		b := e.tr(arg(0), nil)
+		m := w.reg.elemMem(types.Typ[types.Byte])
+		e.decl("cbor_tagwalk", "@raw:"+cborTagWalkDef) // a definition, emitted once per script
+		return Term{fmt.Sprintf("(cbor_tagwalk %s (s-off %s) (s-len %s))", innerOf(e.st(), m, e.memTerm(m), "(s-arr "+b.S+")"), b.S, b.S), "Int", mathIntType}
 	case "mapVal": // abstract content of a map in the current state
 		mv := e.tr(arg(0), nil)
 		mt, ok := mv.T.Underlying().(*types.Map)
@@ -1336,3 +1341,23 @@ func reNode(r *syntax.Regexp) (string, error) {
 	}
 	return "", fmt.Errorf("regex construct %v not in the supported subset", r.Op)
 }
+
+// cborTagWalkDef is the recursive spec function behind cborTagWalk(b), transcribed from RFC 8949 section 3
+// (initial byte = major type in the high 3 bits, additional information in the low 5) and section 3.4 (a tag
+// is major type 6 whose argument is the tag number, followed by the enclosed item): additional information
+// 0..23 carries the argument itself, 24/25/26/27 announce 1/2/4/8 argument bytes, 28..30 are reserved and 31
+// is not allowed for major type 6. Result: 1 -- after zero or more complete tag heads the next initial byte
+// has major type 5 (map); 0 -- it has another major type, or the input ends first; 2 -- a reserved / invalid
+// tag head is met (not well-formed CBOR: the statement gives such input to the decoder to refuse).
+const cborTagWalkDef = `(define-fun cbor_taghead_len ((h (_ BitVec 8))) (_ BitVec 64)
+  (ite (bvult ((_ extract 4 0) h) #b11000) #x0000000000000001
+  (ite (= ((_ extract 4 0) h) #b11000) #x0000000000000002
+  (ite (= ((_ extract 4 0) h) #b11001) #x0000000000000003
+  (ite (= ((_ extract 4 0) h) #b11010) #x0000000000000005 #x0000000000000009)))))
+(define-fun-rec cbor_tagwalk ((a (Array (_ BitVec 64) (_ BitVec 8))) (off (_ BitVec 64)) (len (_ BitVec 64))) Int
+  (ite (bvsle len #x0000000000000000) 0
+  (ite (= ((_ extract 7 5) (select a off)) #b110)
+    (ite (bvuge ((_ extract 4 0) (select a off)) #b11100) 2
+    (ite (bvslt len (cbor_taghead_len (select a off))) 0
+      (cbor_tagwalk a (bvadd off (cbor_taghead_len (select a off))) (bvsub len (cbor_taghead_len (select a off))))))
+  (ite (= ((_ extract 7 5) (select a off)) #b101) 1 0))))`
